@@ -1,6 +1,6 @@
 ------------------------------ MODULE Blocking ------------------------------
 (* C11 - no stream or session call blocks forever.                                                                     *)
-(* Four waiters of the library, each with the environment events that are supposed to release it. One module: every   *)
+(* Five waiters of the library, each with the environment events that are supposed to release it. One module: every   *)
 (* behaviour picks its waiter (`mode`) and configuration in Init, so ONE TLC run covers all of them; the variables of  *)
 (* the other waiters stay at their initial value.                                                                      *)
 (*                                                                                                                     *)
@@ -8,15 +8,16 @@
 (*                stretch of code between two accesses to state shared with other goroutines:                          *)
 (*                   a1  pendingData.moveTo            (entry)                                                         *)
 (*                   a2  recvBuf.Len() = moveTo again, then the length test                                            *)
-(*                   b   IsOpen()        (only when the buffer is empty)        b2  getStreamState() -> EOS / closed   *)
+(*                   b   IsOpen()        (only when the buffer is empty); not open: bm1 bm2 = moveTo, Len()=moveTo +   *)
+(*                       test once more (data delivered together with the close), b2 getStreamState() -> EOS / closed  *)
 (*                   --  arm the read timer when the stream has a read deadline                                        *)
 (*                   sel select { recvNotifyCh (capacity 1) | closeNotifyCh | timer }                                  *)
 (*                   m1 m2   moveTo, Len()=moveTo + test      (notify arm; back to sel when still short)               *)
 (*                   c1 c2   moveTo, Len()=moveTo + test      (close arm)      c3  getStreamState() -> EOS / closed    *)
 (*                on return the deferred Stop+drain leaves the timer channel empty.                                    *)
 (*                Environment = everything that can release the reader:                                                *)
-(*                   ArrAdd/ArrNotify   fillDataToReadBuffer in the event loop: pendingData.add, then (state test)     *)
-(*                                      asyncNotify - two steps, the reader can run between them                       *)
+(*                   ArrBegin/ArrAdd/ArrNotify  fillDataToReadBuffer in the event loop: entered, pendingData.add, then  *)
+(*                                      (state test) asyncNotify - the reader can run between any two of them          *)
 (*                   HalfClose          peer closed: state open->half + close(closeNotifyCh)                           *)
 (*                   CloseCAS/CloseFin  Stream.Close by another local goroutine: state->closed, stream leaves the      *)
 (*                                      session table | unread data dropped, close(closeNotifyCh)                      *)
@@ -29,7 +30,8 @@
 (*  Mode "accept" Session.AcceptStream: select { acceptCh | shutdownCh }.                                              *)
 (*  Mode "send"   Session.waitForSendErr (used by the socket fallback and by close-through-the-socket) against the send *)
 (*                loop: select { sendCh<- | shutdownCh | timer } then select { errCh | shutdownCh | timer }; and the    *)
-(*                slow path of Session.wakeUpPeer / hotRestart, a bare `sendCh <- x` (no other arm).                    *)
+(*                slow path of Session.wakeUpPeer / hotRestart: select { sendCh <- x | shutdownCh }.                   *)
+(*  Mode "init"   Session.initProtocol (the handshake inside newSession) against a peer that answers, stalls or closes. *)
 (*                                                                                                                     *)
 (* Named deviations from the code: (1) byte counts instead of slices; (2) HalfClose and the load+CAS of Stream.close  *)
 (* are single steps; (3) a nil return of the read consumes Need bytes (what ReadBytes does next); (4) the event loop   *)
@@ -45,26 +47,31 @@ CONSTANTS Modes,          \* which waiters this run covers: subset of {"read", "
           Need,           \* bytes a read asks for
           MaxRetry,       \* retries of Flush after the first failed put (10 in the code)
           MaxBacklog,     \* accept: streams the peer may open
-          SCap, SPre, CWT, SMaxT   \* send: capacity of sendCh, foreign entries already in it, tick of
+          SCap, SPre, CWT, SMaxT,  \* send: capacity of sendCh, foreign entries already in it, tick of
                                    \* ConnectionWriteTimeout, clock bound
+          NSteps, IT, IMaxT        \* init: messages the peer has to send for the handshake to succeed, tick of
+                                   \* InitializeTimeout, clock bound
 VARIABLES
   mode, rc, fc,   \* the waiter and configuration of this behaviour (chosen in Init, never changed)
   now,        \* clock
   \* ---- read
-  rpc, rd, res, pend, rbuf, tok, cls, st, sess, tmr, tdl, dpc, arr, peerClosed, cpc, bad, lead,
+  rpc, rd, res, pend, rbuf, tok, cls, st, sess, tmr, tdl, dpc, dsz, arr, peerClosed, cpc, bad, lead,
   \* ---- flush
   fpc, ftry, qn, fst, fcls, fres, fdone, fsess,
   \* ---- accept
   apc, backlog, asess, ares, nnew,
   \* ---- send
-  spc, sres, mine, ahead, behind, lp, cur, wblk, ssess, stm, kpc
+  spc, sres, mine, ahead, behind, lp, cur, wblk, ssess, stm, kpc,
+  \* ---- init (handshake)
+  ipc, ik, ipeer, ires, igo
 
 cvars == <<mode, rc, fc>>
-rvars == <<rpc, rd, res, pend, rbuf, tok, cls, st, sess, tmr, tdl, dpc, arr, peerClosed, cpc, bad, lead>>
+rvars == <<rpc, rd, res, pend, rbuf, tok, cls, st, sess, tmr, tdl, dpc, dsz, arr, peerClosed, cpc, bad, lead>>
 fvars == <<fpc, ftry, qn, fst, fcls, fres, fdone, fsess>>
 avars == <<apc, backlog, asess, ares, nnew>>
 svars == <<spc, sres, mine, ahead, behind, lp, cur, wblk, ssess, stm, kpc>>
-vars == <<cvars, now, rvars, fvars, avars, svars>>
+ivars == <<ipc, ik, ipeer, ires, igo>>
+vars == <<cvars, now, rvars, fvars, avars, svars, ivars>>
 
 NoRC == [id |-> 0, dl |-> <<0>>, chunks |-> {1}, maxarr |-> 0, events |-> {}, maxt |-> 0, inittok |-> {0}]
 NoFC == [id |-> 0, qcap |-> 1, preload |-> 0, wdl |-> 0, maxt |-> 0]
@@ -74,7 +81,8 @@ MaxArr == rc.maxarr
 Events == rc.events
 QCap == fc.qcap
 WDeadline == fc.wdl
-MaxT == CASE mode = "read" -> rc.maxt [] mode = "flush" -> fc.maxt [] mode = "send" -> SMaxT [] OTHER -> 0
+MaxT == CASE mode = "read" -> rc.maxt [] mode = "flush" -> fc.maxt [] mode = "send" -> SMaxT [] mode = "init" -> IMaxT
+             [] OTHER -> 0
 
 Init ==
   /\ mode \in Modes
@@ -82,7 +90,7 @@ Init ==
   /\ fc \in (IF mode = "flush" THEN FlushCfgs ELSE {NoFC})
   /\ now = 0
   /\ rpc = "idle" /\ rd = 0 /\ res = "none" /\ pend = 0 /\ rbuf = 0 /\ tok \in rc.inittok /\ cls = FALSE /\ st = "open"
-  /\ sess = "up" /\ tmr = "off" /\ tdl = 0 /\ dpc = "idle" /\ arr = 0 /\ peerClosed = FALSE /\ cpc = "idle"
+  /\ sess = "up" /\ tmr = "off" /\ tdl = 0 /\ dpc = "idle" /\ dsz = 0 /\ arr = 0 /\ peerClosed = FALSE /\ cpc = "idle"
   /\ bad = "" /\ lead = FALSE
   /\ fpc = "idle" /\ ftry = 0 /\ qn = fc.preload /\ fst = "open" /\ fcls = FALSE /\ fres = "none" /\ fdone = FALSE
   /\ fsess = "up"
@@ -91,12 +99,14 @@ Init ==
   \* a foreign entry (the `writing` flag is held) and SPre more foreign entries wait in sendCh
   /\ spc = "idle" /\ sres = "none" /\ mine = "none" /\ ahead = SPre /\ behind = 0 /\ lp = "writing" /\ cur = "other"
   /\ wblk = TRUE /\ ssess = "up" /\ stm = "off" /\ kpc = "idle"
+  /\ ipc = "idle" /\ ik = 0 /\ ipeer = "up" /\ ires = "none" /\ igo = "none"
 
 Tick == /\ now < MaxT /\ now' = now + 1
-NotR == mode = "read" /\ UNCHANGED <<cvars, fvars, avars, svars>>
-NotF == mode = "flush" /\ UNCHANGED <<cvars, rvars, avars, svars>>
-NotA == mode = "accept" /\ UNCHANGED <<cvars, rvars, fvars, svars>>
-NotS == mode = "send" /\ UNCHANGED <<cvars, rvars, fvars, avars>>
+NotR == mode = "read" /\ UNCHANGED <<cvars, fvars, avars, svars, ivars>>
+NotF == mode = "flush" /\ UNCHANGED <<cvars, rvars, avars, svars, ivars>>
+NotA == mode = "accept" /\ UNCHANGED <<cvars, rvars, fvars, svars, ivars>>
+NotS == mode = "send" /\ UNCHANGED <<cvars, rvars, fvars, avars, ivars>>
+NotI == mode = "init" /\ UNCHANGED <<cvars, rvars, fvars, avars, svars>>
 
 -----------------------------------------------------------------------------
 \* =============================== Mode "read" ===============================
@@ -115,14 +125,14 @@ Return(r, nrbuf, npend) ==
   /\ lead' = (lead \/ (r = "eos" /\ nrbuf + npend >= Need))
 
 Arm == IF Dl # 0 THEN tmr' = "armed" /\ tdl' = Dl ELSE UNCHANGED <<tmr, tdl>>
-Keep == UNCHANGED <<now, rd, tok, cls, st, sess, dpc, arr, peerClosed, cpc>> /\ NotR
+Keep == UNCHANGED <<now, rd, tok, cls, st, sess, dpc, dsz, arr, peerClosed, cpc>> /\ NotR
 
 RStart ==      \* ReadBytes(Need) is called; it enters readMore only when the buffer is short
   /\ rpc = "idle" /\ rd < Len(Deadlines) /\ rd' = rd + 1
   /\ IF rbuf >= Need
        THEN /\ rbuf' = rbuf - Need /\ res' = "nil" /\ UNCHANGED <<rpc>>
        ELSE /\ rpc' = "a1" /\ res' = "none" /\ UNCHANGED <<rbuf>>
-  /\ UNCHANGED <<now, pend, tok, cls, st, sess, tmr, tdl, dpc, arr, peerClosed, cpc, bad, lead>> /\ NotR
+  /\ UNCHANGED <<now, pend, tok, cls, st, sess, tmr, tdl, dpc, dsz, arr, peerClosed, cpc, bad, lead>> /\ NotR
 
 R_a1 == /\ rpc = "a1" /\ rbuf' = rbuf + pend /\ pend' = 0 /\ rpc' = "a2"
         /\ UNCHANGED <<res, tmr, tdl, bad, lead>> /\ Keep
@@ -133,11 +143,20 @@ R_a2 == /\ rpc = "a2"
                 /\ IF n = 0 THEN rpc' = "b" /\ UNCHANGED <<tmr, tdl>> ELSE rpc' = "sel" /\ Arm
         /\ Keep
 R_b ==  /\ rpc = "b"
-        /\ IF st = "open" THEN rpc' = "sel" /\ Arm ELSE rpc' = "b2" /\ UNCHANGED <<tmr, tdl>>
+        /\ IF st = "open" THEN rpc' = "sel" /\ Arm ELSE rpc' = "bm1" /\ UNCHANGED <<tmr, tdl>>
         /\ UNCHANGED <<res, pend, rbuf, bad, lead>> /\ Keep
+\* (since commit 45496fc) the stream is not open: take what arrived together with the close before reporting the end
+R_bm1 == /\ rpc = "bm1" /\ rbuf' = rbuf + pend /\ pend' = 0 /\ rpc' = "bm2"
+         /\ UNCHANGED <<res, tmr, tdl, bad, lead>> /\ Keep
+R_bm2 == /\ rpc = "bm2"
+         /\ LET n == rbuf + pend IN
+            IF n >= Need THEN Return("nil", n, 0)
+            ELSE /\ rbuf' = n /\ pend' = 0 /\ UNCHANGED <<res, bad, lead>>
+                 /\ IF n = 0 THEN rpc' = "b2" /\ UNCHANGED <<tmr, tdl>> ELSE rpc' = "sel" /\ Arm
+         /\ Keep
 R_b2 == /\ rpc = "b2" /\ Return(IF st = "half" THEN "eos" ELSE "closed", rbuf, pend) /\ Keep
 R_selTok == /\ rpc = "sel" /\ tok = 1 /\ tok' = 0 /\ rpc' = "m1"
-            /\ UNCHANGED <<now, rd, res, pend, rbuf, cls, st, sess, tmr, tdl, dpc, arr, peerClosed, cpc, bad, lead>>
+            /\ UNCHANGED <<now, rd, res, pend, rbuf, cls, st, sess, tmr, tdl, dpc, dsz, arr, peerClosed, cpc, bad, lead>>
             /\ NotR
 R_selCls == /\ rpc = "sel" /\ cls /\ rpc' = "c1"
             /\ UNCHANGED <<res, pend, rbuf, tmr, tdl, bad, lead>> /\ Keep
@@ -158,53 +177,56 @@ R_c2 == /\ rpc = "c2"
         /\ Keep
 R_c3 == /\ rpc = "c3" /\ Return(IF st = "half" THEN "eos" ELSE "closed", rbuf, pend) /\ Keep
 
-ReaderStep == R_a1 \/ R_a2 \/ R_b \/ R_b2 \/ R_selTok \/ R_selCls \/ R_selTmr \/ R_m1 \/ R_m2 \/ R_c1 \/ R_c2 \/ R_c3
+ReaderStep == R_a1 \/ R_a2 \/ R_b \/ R_bm1 \/ R_bm2 \/ R_b2 \/ R_selTok \/ R_selCls \/ R_selTmr \/ R_m1 \/ R_m2 \/ R_c1 \/ R_c2 \/ R_c3
 
 RKeep == UNCHANGED <<rpc, rd, res, bad, lead>> /\ NotR
-ArrAdd(k) ==
+ArrBegin(k) ==      \* the event loop enters fillDataToReadBuffer with a k-byte message (nothing shared touched yet)
   /\ "arr" \in Events /\ dpc = "idle" /\ arr < MaxArr /\ st # "closed" /\ sess = "up" /\ ~peerClosed
-  /\ pend' = pend + k /\ dpc' = "mid" /\ arr' = arr + 1
-  /\ UNCHANGED <<now, rbuf, tok, cls, st, sess, tmr, tdl, peerClosed, cpc>> /\ RKeep
-ArrNotify ==
-  /\ dpc = "mid" /\ dpc' = "idle"
+  /\ dpc' = "pre" /\ dsz' = k /\ arr' = arr + 1
+  /\ UNCHANGED <<now, pend, rbuf, tok, cls, st, sess, tmr, tdl, peerClosed, cpc>> /\ RKeep
+ArrAdd ==           \* pendingData.add
+  /\ dpc = "pre" /\ pend' = pend + dsz /\ dpc' = "mid"
+  /\ UNCHANGED <<now, rbuf, tok, cls, st, sess, tmr, tdl, dsz, arr, peerClosed, cpc>> /\ RKeep
+ArrNotify ==        \* state test, then asyncNotify(recvNotifyCh) (or drop everything when closed locally)
+  /\ dpc = "mid" /\ dpc' = "idle" /\ dsz' = 0
   /\ IF st = "closed" THEN pend' = 0 /\ rbuf' = 0 /\ UNCHANGED tok
                       ELSE tok' = 1 /\ UNCHANGED <<pend, rbuf>>
   /\ UNCHANGED <<now, cls, st, sess, tmr, tdl, arr, peerClosed, cpc>> /\ RKeep
 HalfClose ==
   /\ "half" \in Events /\ ~peerClosed /\ dpc = "idle" /\ sess = "up" /\ peerClosed' = TRUE
   /\ IF st = "open" THEN st' = "half" /\ cls' = TRUE ELSE UNCHANGED <<st, cls>>
-  /\ UNCHANGED <<now, pend, rbuf, tok, sess, tmr, tdl, dpc, arr, cpc>> /\ RKeep
+  /\ UNCHANGED <<now, pend, rbuf, tok, sess, tmr, tdl, dpc, dsz, arr, cpc>> /\ RKeep
 CloseCAS ==
   /\ "close" \in Events /\ cpc = "idle" /\ st # "closed" /\ st' = "closed" /\ cpc' = "mid"
-  /\ UNCHANGED <<now, pend, rbuf, tok, cls, sess, tmr, tdl, dpc, arr, peerClosed>> /\ RKeep
+  /\ UNCHANGED <<now, pend, rbuf, tok, cls, sess, tmr, tdl, dpc, dsz, arr, peerClosed>> /\ RKeep
 CloseFin ==
   /\ cpc = "mid" /\ cpc' = "done" /\ pend' = 0 /\ rbuf' = 0 /\ cls' = TRUE
-  /\ UNCHANGED <<now, tok, st, sess, tmr, tdl, dpc, arr, peerClosed>> /\ RKeep
+  /\ UNCHANGED <<now, tok, st, sess, tmr, tdl, dpc, dsz, arr, peerClosed>> /\ RKeep
 SessNotify ==
   /\ "sess" \in Events /\ sess = "up" /\ sess' = "notified"
   /\ cls' = (IF st = "closed" THEN cls ELSE TRUE)       \* a stream that already left the table is not notified
-  /\ UNCHANGED <<now, pend, rbuf, tok, st, tmr, tdl, dpc, arr, peerClosed, cpc>> /\ RKeep
+  /\ UNCHANGED <<now, pend, rbuf, tok, st, tmr, tdl, dpc, dsz, arr, peerClosed, cpc>> /\ RKeep
 SessLambda ==
   /\ sess = "notified" /\ dpc = "idle" /\ sess' = "down"
   /\ IF st # "closed" THEN st' = "closed" /\ pend' = 0 /\ rbuf' = 0 ELSE UNCHANGED <<st, pend, rbuf>>
-  /\ UNCHANGED <<now, tok, cls, tmr, tdl, dpc, arr, peerClosed, cpc>> /\ RKeep
+  /\ UNCHANGED <<now, tok, cls, tmr, tdl, dpc, dsz, arr, peerClosed, cpc>> /\ RKeep
 TimerFire ==
   /\ tmr = "armed" /\ now >= tdl /\ tmr' = "fired"
-  /\ UNCHANGED <<now, pend, rbuf, tok, cls, st, sess, tdl, dpc, arr, peerClosed, cpc>> /\ RKeep
-RTick == Tick /\ UNCHANGED <<pend, rbuf, tok, cls, st, sess, tmr, tdl, dpc, arr, peerClosed, cpc>> /\ RKeep
+  /\ UNCHANGED <<now, pend, rbuf, tok, cls, st, sess, tdl, dpc, dsz, arr, peerClosed, cpc>> /\ RKeep
+RTick == Tick /\ UNCHANGED <<pend, rbuf, tok, cls, st, sess, tmr, tdl, dpc, dsz, arr, peerClosed, cpc>> /\ RKeep
 
-ReadNext == RStart \/ R_a1 \/ R_a2 \/ R_b \/ R_b2 \/ R_selTok \/ R_selCls \/ R_selTmr \/ R_m1 \/ R_m2 \/ R_c1 \/ R_c2
-            \/ R_c3 \/ (\E k \in Chunks : ArrAdd(k)) \/ ArrNotify \/ HalfClose \/ CloseCAS \/ CloseFin \/ SessNotify
+ReadNext == RStart \/ R_a1 \/ R_a2 \/ R_b \/ R_bm1 \/ R_bm2 \/ R_b2 \/ R_selTok \/ R_selCls \/ R_selTmr \/ R_m1 \/ R_m2 \/ R_c1 \/ R_c2
+            \/ R_c3 \/ (\E k \in Chunks : ArrBegin(k)) \/ ArrAdd \/ ArrNotify \/ HalfClose \/ CloseCAS \/ CloseFin \/ SessNotify
             \/ SessLambda \/ TimerFire \/ RTick
 
 \* the event that should release the reader has happened (and its deliverer has finished)
 Released == \/ cls
             \/ (tmr \in {"armed", "fired"} /\ now >= tdl)
             \/ (dpc = "idle" /\ pend + rbuf >= Need)
-ReadFair == WF_vars(ReaderStep) /\ WF_vars(ArrNotify) /\ WF_vars(CloseFin) /\ WF_vars(TimerFire)
+ReadFair == WF_vars(ReaderStep) /\ WF_vars(ArrAdd) /\ WF_vars(ArrNotify) /\ WF_vars(CloseFin) /\ WF_vars(TimerFire)
 ReadReturns == (rpc # "idle" /\ Released) ~> (rpc = "idle")
 NoBadResult == bad = ""
-NoEosWithData == ~lead           \* NOT part of C11 (the read did return): a lead for C07, see the notes
+NoEosWithData == ~lead           \* not a C11 verdict (the read did return); holds since commit 45496fc, see the notes
 ReadTypeOK == /\ tok \in {0, 1} /\ pend >= 0 /\ rbuf >= 0
               /\ (rpc = "idle" => tmr = "off")           \* the timer never outlives the call that armed it
 
@@ -287,10 +309,12 @@ LoopWriteFails == /\ lp = "writing" /\ ssess = "down" /\ lp' = "idle" /\ cur' = 
 LoopExit == /\ lp = "idle" /\ ssess # "up" /\ lp' = "exited"
             /\ UNCHANGED <<mine, ahead, behind, cur>> /\ SK1
 LoopStep == LoopTake \/ LoopWritten \/ LoopWriteFails \/ LoopExit
-\* the bare send of wakeUpPeer's slow path (taken when the `writing` flag is held by the send loop)
+\* the slow path of wakeUpPeer / hotRestart (taken when the `writing` flag is held by the send loop):
+\* select { sendCh <- x | shutdownCh }   (before commit 4dc1e7e a bare send: TLC refuted WakeReturns, finding wakeup-bare-send)
 SK2 == UNCHANGED <<now, spc, sres, mine, ahead, lp, cur, stm>> /\ NotS
 KStart == /\ kpc = "idle" /\ lp = "writing" /\ kpc' = "send" /\ UNCHANGED <<behind, wblk, ssess>> /\ SK2
 KSend == /\ kpc = "send" /\ QLen < SCap /\ behind' = behind + 1 /\ kpc' = "done" /\ UNCHANGED <<wblk, ssess>> /\ SK2
+KShut == /\ kpc = "send" /\ ssess # "up" /\ kpc' = "shut" /\ UNCHANGED <<behind, wblk, ssess>> /\ SK2
 \* environment
 SUnblock == /\ wblk /\ wblk' = FALSE      \* the peer reads the socket again
             /\ UNCHANGED <<behind, ssess, kpc>> /\ SK2
@@ -298,17 +322,44 @@ SSessClose == /\ ssess = "up" /\ ssess' = "closed" /\ UNCHANGED <<behind, wblk, 
 SSessLambda == /\ ssess = "closed" /\ ssess' = "down" /\ wblk' = FALSE /\ UNCHANGED <<behind, kpc>> /\ SK2
 STick == Tick /\ UNCHANGED svars /\ NotS
 SendNext == SStart \/ SEnq \/ SShut \/ STimeout \/ SAck \/ STimerFire \/ LoopTake \/ LoopWritten \/ LoopWriteFails
-            \/ LoopExit \/ KStart \/ KSend \/ SUnblock \/ SSessClose \/ SSessLambda \/ STick
-SendFair == WF_vars(SendStep) /\ WF_vars(STimerFire) /\ WF_vars(LoopStep) /\ WF_vars(KSend) /\ WF_vars(SSessLambda)
+            \/ LoopExit \/ KStart \/ KSend \/ KShut \/ SUnblock \/ SSessClose \/ SSessLambda \/ STick
+SendFair == WF_vars(SendStep) /\ WF_vars(STimerFire) /\ WF_vars(LoopStep) /\ WF_vars(KSend \/ KShut) /\ WF_vars(SSessLambda)
 \* waitForSendErr returns once the write is done, the session is shut down or the write timeout has passed
 SendReturns == (spc # "idle" /\ (mine \in {"written", "failed"} \/ ssess # "up" \/ now >= CWT)) ~> (spc = "idle")
 SendResultOK == /\ (sres = "timeout" => now >= CWT)
                 /\ (sres = "shutdown" => ssess # "up")
-\* the bare send returns once the session is dead (expected to be FALSE for the code as it is: the lead of finding
-\* wakeup-bare-send; checked in a separate TLC run whose counterexample is staged on the real code)
-WakeReturns == (kpc = "send" /\ ssess = "down") ~> (kpc # "send")
+\* the slow-path send returns once the session is shut down (room in sendCh may be taken by competing senders)
+WakeReturns == (kpc = "send" /\ ssess # "up") ~> (kpc # "send")
 
 -----------------------------------------------------------------------------
-Next == ReadNext \/ FlushNext \/ AcceptNext \/ SendNext
-Spec == Init /\ [][Next]_vars /\ ReadFair /\ FlushFair /\ AcceptFair /\ SendFair
+\* =============================== Mode "init" ===============================
+\* Session.initProtocol (newSession, both ends): the handshake runs in its own goroutine (igo) doing blocking reads on the
+\* connection; the caller waits in select { resultCh | InitializeTimeout }; on the timeout it shuts the socket down and
+\* waits for the goroutine to leave (commit cf62095). The peer sends its NSteps messages, stalls at any point, or closes.
+IStart == /\ ipc = "idle" /\ ires = "none" /\ ipc' = "wait" /\ igo' = "reading"
+          /\ UNCHANGED <<now, ik, ipeer, ires>> /\ NotI
+PeerReply == /\ ipc # "idle" /\ ipeer = "up" /\ ik < NSteps /\ ik' = ik + 1
+             /\ UNCHANGED <<now, ipc, ipeer, ires, igo>> /\ NotI
+PeerClose == /\ ipeer = "up" /\ ipeer' = "closed" /\ UNCHANGED <<now, ipc, ik, ires, igo>> /\ NotI
+\* the handshake goroutine: finishes when it has read everything, fails when the connection ends or was shut down
+GoDone == /\ igo = "reading" /\ ik = NSteps /\ igo' = "ok" /\ UNCHANGED <<now, ipc, ik, ipeer, ires>> /\ NotI
+GoFail == /\ igo = "reading" /\ ik < NSteps /\ (ipeer = "closed" \/ ipc = "shut") /\ igo' = "err"
+          /\ UNCHANGED <<now, ipc, ik, ipeer, ires>> /\ NotI
+IResult == /\ ipc = "wait" /\ igo \in {"ok", "err"} /\ ipc' = "done" /\ ires' = igo
+           /\ UNCHANGED <<now, ik, ipeer, igo>> /\ NotI
+ITimeout == /\ ipc = "wait" /\ now >= IT /\ ipc' = "shut"          \* timer arm: syscall.Shutdown(connFd), then <-resultCh
+            /\ UNCHANGED <<now, ik, ipeer, ires, igo>> /\ NotI
+IJoin == /\ ipc = "shut" /\ igo \in {"ok", "err"} /\ ipc' = "done" /\ ires' = "timeout"
+         /\ UNCHANGED <<now, ik, ipeer, igo>> /\ NotI
+InitStep == GoDone \/ GoFail \/ IResult \/ ITimeout \/ IJoin
+ITick == Tick /\ UNCHANGED ivars /\ NotI
+InitNext == IStart \/ PeerReply \/ PeerClose \/ GoDone \/ GoFail \/ IResult \/ ITimeout \/ IJoin \/ ITick
+InitFair == WF_vars(InitStep)
+InitReturns == (ipc \in {"wait", "shut"} /\ (ik = NSteps \/ ipeer = "closed" \/ now >= IT)) ~> (ipc = "done")
+InitResultOK == /\ (ires = "timeout" => now >= IT)
+                /\ (ires = "ok" => ik = NSteps)
+
+-----------------------------------------------------------------------------
+Next == ReadNext \/ FlushNext \/ AcceptNext \/ SendNext \/ InitNext
+Spec == Init /\ [][Next]_vars /\ ReadFair /\ FlushFair /\ AcceptFair /\ SendFair /\ InitFair
 =============================================================================
